@@ -130,8 +130,17 @@ func newTracker(rec *hlib.Recorder) *tracker {
 	return t
 }
 
+var (
+	rigSeq          int32
+	errCloseReports = fmt.Errorf("the transport reports a failure on close")
+)
+
 func newRig(rec *hlib.Recorder, name string, prefill, fillerBase int) *rig {
 	r := &rig{st: hlib.NewMemStream(name), rec: rec, hs: map[int]*hnd{}}
+	if atomic.AddInt32(&rigSeq, 1)%2 == 0 {
+		// every other rig: the transport reports a failure when closed (and is closed all the same)
+		r.st.CloseErr = errCloseReports
+	}
 	net.EndPointFinalizer(r.st, func(e net.EndPoint) {
 		r.ep = e
 		r.inst = vhook.ID(e)
